@@ -28,8 +28,75 @@ pub fn install_panic_hook() {
     }));
 }
 
+use std::sync::atomic::{AtomicU64, Ordering as AtOrd};
+use std::sync::Mutex;
+
+/// heartbeat of guarded library calls: incremented when a guard is entered and when it is left
+static GUARD_SEQ: AtomicU64 = AtomicU64::new(0);
+static GUARD_DEPTH: AtomicU64 = AtomicU64::new(0);
+/// last counter key touched by the monitor (context for a hang report)
+static LAST_KEY: Mutex<String> = Mutex::new(String::new());
+
+/// CPU seconds one guarded library call may burn before it is reported as "did not return".
+/// (CPU time of the process, not wall-clock: a starved or stopped process never trips it.) Every library call the
+/// drivers make takes microseconds to milliseconds; the slowest (JSON of a 100 003-segment function) ~0.2 s.
+pub const HANG_CPU_SECONDS: f64 = 60.0;
+
+fn process_cpu_seconds() -> f64 {
+    // utime + stime from /proc/self/stat (fields 14 and 15), clock ticks of 1/100 s
+    if let Ok(s) = std::fs::read_to_string("/proc/self/stat") {
+        if let Some(rest) = s.rsplit(") ").next() {
+            let f: Vec<&str> = rest.split_whitespace().collect();
+            if f.len() > 13 {
+                let u: f64 = f[11].parse().unwrap_or(0.0);
+                let k: f64 = f[12].parse().unwrap_or(0.0);
+                return (u + k) / 100.0;
+            }
+        }
+    }
+    0.0
+}
+
+/// Watcher thread: if the process burns HANG_CPU_SECONDS of CPU inside one and the same guarded call, write
+/// `<out>.hang` and exit with status 97 (run.py reports it as an observed non-returning library call).
+pub fn start_hang_watcher(out: String, prop: String) {
+    std::thread::spawn(move || {
+        let mut last_seq = u64::MAX;
+        let mut cpu_at_change = process_cpu_seconds();
+        loop {
+            std::thread::sleep(std::time::Duration::from_millis(500));
+            let seq = GUARD_SEQ.load(AtOrd::Relaxed);
+            let depth = GUARD_DEPTH.load(AtOrd::Relaxed);
+            let cpu = process_cpu_seconds();
+            if seq != last_seq || depth == 0 {
+                last_seq = seq;
+                cpu_at_change = cpu;
+                continue;
+            }
+            if cpu - cpu_at_change > HANG_CPU_SECONDS {
+                let key = LAST_KEY.lock().map(|k| k.clone()).unwrap_or_default();
+                let w = serde_json::json!({"property": prop, "sig": "library call did not return (CPU-time watchdog)",
+                    "cpu_seconds_in_one_call": cpu - cpu_at_change, "guarded_calls_completed": seq / 2, "last_counter_key": key});
+                let path = if out == "-" || out.is_empty() { format!("/tmp/ppv-{}.hang", std::process::id()) } else { format!("{}.hang", out) };
+                let _ = std::fs::write(&path, w.to_string());
+                eprintln!("HANG {}", w);
+                std::process::exit(97);
+            }
+        }
+    });
+}
+
 /// Run a library call; Err(message) if it panicked.
 pub fn guard<R>(f: impl FnOnce() -> R) -> Result<R, String> {
+    GUARD_SEQ.fetch_add(1, AtOrd::Relaxed);
+    GUARD_DEPTH.fetch_add(1, AtOrd::Relaxed);
+    let r = guard_inner(f);
+    GUARD_DEPTH.fetch_sub(1, AtOrd::Relaxed);
+    GUARD_SEQ.fetch_add(1, AtOrd::Relaxed);
+    r
+}
+
+fn guard_inner<R>(f: impl FnOnce() -> R) -> Result<R, String> {
     match catch_unwind(AssertUnwindSafe(f)) {
         Ok(r) => Ok(r),
         Err(_) => Err(LAST_PANIC
@@ -104,6 +171,10 @@ impl Mon {
         }
     }
     pub fn count(&mut self, key: &str) {
+        if let Ok(mut k) = LAST_KEY.try_lock() {
+            k.clear();
+            k.push_str(key);
+        }
         *self.counters.entry(key.to_string()).or_insert(0) += 1;
     }
     pub fn add(&mut self, key: &str, n: u64) {
@@ -295,7 +366,8 @@ pub fn main_online(run: fn(&Args, &mut Mon)) {
     install_panic_hook();
     let t0 = std::time::Instant::now();
     let mut m = Mon::new(&a.prop);
-    if let Err(msg) = guard(|| run(&a, &mut m)) {
+    start_hang_watcher(a.out.clone(), a.prop.clone());
+    if let Err(msg) = guard_inner(|| run(&a, &mut m)) {
         escaped_panic(&mut m, msg);
     }
     let wall = t0.elapsed().as_secs_f64();
@@ -310,16 +382,17 @@ pub fn main_offline(drive: fn(&Args, &mut Mon, &mut crate::events::Sink)) {
     install_panic_hook();
     let t0 = std::time::Instant::now();
     let mut m = Mon::new(&a.prop);
+    start_hang_watcher(if a.out == "-" { a.hashes.clone() } else { a.out.clone() }, a.prop.clone());
     if a.out == "-" {
         let mut sink = crate::events::Sink::stdout();
-        if let Err(msg) = guard(|| drive(&a, &mut m, &mut sink)) {
+        if let Err(msg) = guard_inner(|| drive(&a, &mut m, &mut sink)) {
             escaped_panic(&mut m, msg);
         }
         let wall = t0.elapsed().as_secs_f64();
         sink.finish(m, wall);
     } else {
         let mut sink = crate::events::Sink::null();
-        if let Err(msg) = guard(|| drive(&a, &mut m, &mut sink)) {
+        if let Err(msg) = guard_inner(|| drive(&a, &mut m, &mut sink)) {
             escaped_panic(&mut m, msg);
         }
         m.evaluations = m.evaluations.max(sink.n);
